@@ -135,12 +135,13 @@ def run(ctx):
         rp = json.load(open(ctx.replay))
         cases = [v["case"] for v in rp.get("violations", []) if "case" in v]
         # re-run the same seed and pick the cases again (the harness is deterministic per seed)
-        n = 160 if rp.get("tier", "quick") == "quick" else 800
+        n = 144 if rp.get("tier", "quick") == "quick" else 800
         allc = ctx.run_json([binp, "cases", str(n)], env={"VERIF_SEED": str(rp.get("seed", ctx.seed))})
         idxs = [v.get("index") for v in rp.get("violations", []) if v.get("index") is not None]
         cases = [allc[i] for i in idxs if i < len(allc)] or cases
     else:
-        n = 160 if ctx.tier == "quick" else 800
+        # + the fixed matrix of 22 (kind, mutation) pairs the harness emits first in every run (44 cases)
+        n = 144 if ctx.tier == "quick" else 800
         cases = ctx.run_json([binp, "cases", str(n)])
     ctx.n_cases = n if not ctx.replay else 0
     if not model:
@@ -187,11 +188,19 @@ def run(ctx):
         "evaluations": len(cases),
         "distinct_nontrivial": len({keyf(c) for c in cases if c["mut"] != "none"}),
         "rule": "generated objects of 14 kinds (regular, session, tombstone, lock, link, split children, nested parents, EC parts) valid or mutated in one field, each streamed through the real Streamer in a random chunking "
-                "and given to ValidateAndStoreObjectLocally; plus trusted-path streams sliced by the node with storage failures; non-trivial = a mutation was applied; distinct by (path, kind, mutation, outcome)",
+                "and given to ValidateAndStoreObjectLocally; plus trusted-path streams sliced by the node with storage failures; "
+                "plus, first in every run, a fixed matrix (both paths each): tombstone / lock / link objects x {valid, tombstone verifier rejects, split verifier rejects, payload present where it must be empty, "
+                "empty where it must not be, empty AND verifier rejects, pre-2.18 version, garbage link, link without first ID}, streams of exactly the declared size and of one byte more with a one-byte last chunk, "
+                "an EC part whose owner differs from its parent's; non-trivial = a mutation was applied; distinct by (path, kind, mutation, outcome)",
         "outcome_histogram": dict(collections.Counter(outcome_key(c) for c in cases)),
         "mutation_histogram": dict(collections.Counter(c["mut"] for c in cases)),
         "kind_histogram": dict(collections.Counter(c["kind"] for c in cases)),
         "chunks_histogram": dict(collections.Counter(min(len(c["chunks"]), 8) for c in cases if c["path"] != "repl")),
         "samples": [{k: v for k, v in c.items() if k not in ("htab",)} for c in cases[:2]],
         "n_cases_arg": n,
+        "content_matrix": sorted("%s/%s/%s:%s" % (c["path"], c["kind"], c["mut"], outcome_key(c).split(":")[1]) for c in cases
+                                 if c["kind"] in ("tomb", "lock", "link") and c["mut"] in ("none", "content_tomb", "content_split", "sys_payload", "sys_payload_tomb", "link_empty",
+                                                                                            "link_empty_split", "link_garbage", "link_no_first", "ver_217")),
+        "system_objects_empty_payload_rejected_by_content": sum(1 for c in cases if c["kind"] in ("tomb", "link") and c["obj"]["size"] == 0
+                                                                and c["mut"] in ("content_tomb", "link_empty", "link_empty_split")),
     })
